@@ -966,7 +966,9 @@ where
         let inner = Arc::new(RwLock::new(Some(MirroredVecDequeInner {
             v: self.take_initial().unwrap_or_default(),
             complete: self.is_complete(),
-            done: self.is_done(),
+            // Set when the done event is received, since a subscription taken after the
+            // collection was marked done may still deliver its initial value.
+            done: false,
             error: None,
             max_size,
         })));
